@@ -54,6 +54,9 @@ structure Params where
   /-- `checkForResumption` honours the client-authentication policy and `doResumeHandshake`
   re-checks the recorded client certificates (F6 repaired) -/
   resumeHonoursPolicy : Bool
+  /-- `checkForResumption` resumes only a session of the negotiated version whose suite the
+  ClientHello still offers and the configuration in use still enables (with usable keys) -/
+  resumeSuiteGuards : Bool
   /-- `Config` fields that `Clone` does not copy -/
   cloneMissing : List String
   deriving DecidableEq, Repr
@@ -324,8 +327,10 @@ def serverResumes (p : Params) (k : KeyFlags) (s : ServerCfg) (vers : Nat) (offe
   let sessionHasClientCerts := decide (sess.serverPeer.length ≠ 0)
   !(p.resumeHonoursPolicy && requiresClientCert p s.auth && !sessionHasClientCerts) &&
   !(p.resumeHonoursPolicy && sessionHasClientCerts && authVal p s.auth == authVal p .noClientCert) &&
-  vers == sess.vers && offered.contains sess.suite &&
-  (selectCipherSuite p [sess.suite] (configSuites p s.suites) (cipherSuiteOk p k)).isSome
+  (if p.resumeSuiteGuards then
+    vers == sess.vers && offered.contains sess.suite &&
+    (selectCipherSuite p [sess.suite] (configSuites p s.suites) (cipherSuiteOk p k)).isSome
+   else (selectCipherSuite p [sess.suite] [sess.suite] (cipherSuiteOk p k)).isSome)
 
 /-- One handshake between a client and a server configuration. `sess` is the session both
 ends still hold from an earlier connection (offered by the client, found by the server),
@@ -400,5 +405,46 @@ def sessionOf (a : Agreed) : Session :=
 /-- the next handshake with the same configuration objects -/
 def negotiateNext (p : Params) (c : ClientCfg) (s : ServerCfg) (first : Agreed) : Except Failure Agreed :=
   handshake p (some (sessionOf first)) c s
+
+/-! ### histories: several connections between the same two parties
+
+Between connections the only state is what the two session caches hold.  The client keeps
+one session per destination (`createNewSession` overwrites it, a failed handshake that had
+loaded it deletes it: the deferred `Put(dst, nil)` of `clientHandshake`); the server keeps
+sessions by their random 32-byte id (`createSessionState`), so the only server entry that can
+ever be looked up again is the one with the id of the session the client still holds. -/
+
+structure Caches where
+  /-- the session the client's cache holds for this server -/
+  sess : Option Session := none
+  /-- the server's cache holds the entry with the same id -/
+  known : Bool := false
+  deriving DecidableEq, Repr
+
+/-- One connection of a history: the handshake, and the caches after it. -/
+def connect (p : Params) (st : Caches) (c : ClientCfg) (s : ServerCfg) :
+    Except Failure Agreed × Caches :=
+  let ccache := (cloneClient p c).cache
+  let scache := (cloneServer p s).cache
+  -- loadSession: only a configuration with a cache offers a session
+  let offered := if ccache then st.sess else none
+  -- checkForResumption: found only through a cache that holds the id
+  let found := if scache && st.known then offered else none
+  let r := handshake p found c s
+  let st' : Caches :=
+    match r with
+    | .error _ => if offered.isSome then {} else st
+    | .ok a =>
+      if a.client.resumed then st
+      else if ccache then { sess := some (sessionOf a), known := scache }
+      else st
+  (r, st')
+
+/-- the connections of a history, in order: party `c`/`s` under each reconfiguration -/
+def runHistory (p : Params) (c : ClientCfg) (s : ServerCfg) : Caches → List Reconf → List (Except Failure Agreed)
+  | _, [] => []
+  | st, r :: rs =>
+    let o := connect p st (r.client c) (r.server s)
+    o.1 :: runHistory p c s o.2 rs
 
 end Gotlcp.Model.Negotiate
